@@ -1064,8 +1064,8 @@ func runC05(c *Ctx) {
 			if r, ok := i.(*ssa.Return); ok && len(r.Results) == 1 {
 				if call, ok := r.Results[0].(*ssa.Call); ok && callName(&call.Call) == "(time.Time).Add" {
 					p0, p1 := path(call.Call.Args[0]), path(call.Call.Args[1])
-					okE = p0 == "*r.Timestamp" || p0 == "r.Timestamp"
-					okE = okE && (p1 == "*r.Latency" || p1 == "r.Latency")
+					okE = p0 == "*recv.Timestamp" || p0 == "recv.Timestamp"
+					okE = okE && (p1 == "*recv.Latency" || p1 == "recv.Latency")
 				}
 			}
 		})
